@@ -26,7 +26,7 @@ RULE = (
 )
 ASSUMPTIONS = [
     "simulated schedulers; crash points are between boundary events (scheduler commands, file open/write), not between arbitrary bytecodes",
-    "the local pool's enqueue faults are covered through the same TrackingBackend code path as the cluster backends",
+    "local backend: a recording stand-in for the pool drops / resets the connection or answers garbage at the k-th enqueue",
 ]
 
 SUB_KINDS = ["exit1", "stderr_error", "garbage", "kill_parent_after", "kill_parent_before"]
@@ -63,6 +63,12 @@ def fault_list(sched, n, pre):
 
 
 def gen_case(rng, idx, tier):
+    if idx % 14 == 9:
+        n = rng.randint(3, 6)
+        dag = gen.gen_dag(rng, n_targets=n, p_noout=0.0, shapes=rng.choice(["chain", "diamond", "fan", "random"]))
+        for t in dag["targets"]:
+            t["spec"] = "echo %s\n" % t["name"]
+        return {"sched": "local", "dag": dag, "pre": rng.random() < 0.5, "hashing": rng.random() < 0.5, "fault": {"where": "enqueue", "k": rng.randint(1, n), "kind": rng.choice(["drop", "garbage", "wrong_kind", "reset"])}}
     wf_rng = random.Random(idx // 56 * 7919 + 13)
     sched = ["slurm", "slurm", "sge", "lsf", "slurm-noacct"][(idx // 56) % 5]
     n = wf_rng.randint(3, 7)
@@ -90,7 +96,92 @@ def truth_tracked(sim, sched):
     return out
 
 
+def run_local(case):
+    """local backend: the k-th enqueue request is not answered properly by the (recording) pool"""
+    from ..recserver import RecServer
+
+    res = Result()
+    f = case["fault"]
+    with gen.Project() as proj, RecServer(first_id=0) as srv:
+        ts = case["dag"]["targets"]
+        variant = [{"name": t["name"], "ins_expr": repr(t["ins"]), "outs_expr": repr(t["outs"]), "spec": t["spec"], "route": "target"} for t in ts]
+        proj.write_workflow(gen.render_workflow(variant))
+        cfg = {"backend": "local", "backend.local.port": srv.port, "backend.local.host": "127.0.0.1"}
+        if case["hashing"]:
+            cfg["use_spec_hashes"] = True
+        proj.write_config(cfg)
+        for s in case["dag"]["sources"]:
+            proj.set_file(s, 0)
+        mts = [dict(t, wd=proj.root) for t in ts]
+        deps, _, _ = model.dependency_relation(mts)
+        env = cli.env_for(None, ())
+        first = model.topo_order(deps)[0]
+        if case["pre"]:
+            r = cli.gwf(proj.root, ["run", first], env, audit=False)
+            if r.rc != 0:
+                res.violation("crash", "clean partial local run failed", **cli.crash_witness(r))
+                return res
+        accepted_before = {v["name"]: t for t, v in srv.tasks.items()}
+        srv.fault = {"nth": srv.enqueues + f["k"], "kind": f["kind"]}
+        r1 = cli.gwf(proj.root, ["run"], env, audit=False, timeout=90)
+        srv.fault = None
+        res.mon("faults_injected")
+        truth = {}
+        for t, v in sorted(srv.tasks.items()):
+            truth[v["name"]] = t
+        accepted_now = {n: t for n, t in truth.items() if accepted_before.get(n) != t}
+        ctx = {"sched": "local", "fault": f, "rc1": r1.rc, "accepted_in_faulty_run": accepted_now, "accepted_before": accepted_before, "err1": r1.err[-500:]}
+        dup1 = sorted(n for n in accepted_now if n in accepted_before)
+        if dup1:
+            res.violation("duplicate-in-interrupted-run", "the interrupted local run enqueued %s again" % dup1, **ctx)
+        hashes = proj.state_files().get("spec-hashes.json", {})
+        if case["hashing"] and isinstance(hashes, dict):
+            res.mon("hash_records_checked")
+            bad = sorted(n for n in hashes if n not in truth)
+            if bad:
+                res.violation("hash-without-acceptance", "spec hash recorded for %s whose enqueue was never accepted" % bad, **ctx)
+        r2 = cli.gwf(proj.root, ["status"], env, audit=False)
+        if r2.rc != 0:
+            res.violation("next-invocation-fails", "after the interrupted local run `gwf status` fails", **cli.crash_witness(r2), **ctx)
+            return res
+        bview = {n: "submitted" for n in truth}  # the recording pool keeps every accepted task pending
+        mtime = scenario.disk_mtimes(scenario.all_paths(mts))
+        want_submit, want_prereq, st = model.plan(mts, deps, bview, mtime, model.endpoints(deps))
+        n0 = len(srv.log)
+        r3 = cli.gwf(proj.root, ["run"], env, audit=False)
+        res.mon("second_runs_checked")
+        if r3.rc != 0:
+            res.violation("next-invocation-fails", "after the interrupted local run `gwf run` fails", **cli.crash_witness(r3), **ctx)
+            return res
+        enq = [m for m in srv.log[n0:] if m.get("__kind__") == "enqueue_task"]
+        names2 = [m["name"] for m in enq]
+        tracked_file = proj.state_files().get("local-backend-tracked.json", {})
+        dup = sorted(n for n in names2 if n in truth)
+        if dup:
+            res.violation("duplicate-after-interruption", "local: targets %s got a second task although their accepted task (%s) is still pending" % (dup, {n: truth[n] for n in dup}), tracked_file=tracked_file, **ctx)
+        missing = sorted(set(want_submit) - set(names2))
+        extra = sorted(set(names2) - set(want_submit) - set(dup))
+        if missing or extra:
+            res.violation("plan-after-interruption", "local: second run enqueued %s; expected %s" % (sorted(names2), sorted(want_submit)), tracked_file=tracked_file, **ctx)
+        newid = {}
+        for m in enq:
+            newid[m["name"]] = max(t for t, v in srv.tasks.items() if v["name"] == m["name"])
+        for m in enq:
+            if m["name"] not in want_prereq:
+                continue
+            want_ids = sorted(newid[d] if d in newid else truth.get(d) for d in want_prereq[m["name"]])
+            if sorted(m["deps"], key=str) != sorted(want_ids, key=str):
+                res.violation("prereq-after-interruption", "local: %s enqueued with deps %s; the tasks accepted for its incomplete deps are %s" % (m["name"], m["deps"], want_ids), tracked_file=tracked_file, **ctx)
+        n = len(deps) - (1 if case["pre"] else 0)
+        pos = "first" if f["k"] == 1 else ("last" if f["k"] >= n else "inside")
+        res.sig = ("local", "enqueue", pos, f["kind"], case["hashing"], case["pre"])
+        res.nontrivial = pos == "inside"
+    return res
+
+
 def run_case(case):
+    if case["sched"] == "local":
+        return run_local(case)
     res = Result()
     sched = case["sched"]
     f = case["fault"]
